@@ -116,4 +116,141 @@ pub mod verif_spec_wrath {
         lemma_le16_inj(h.opcode, opcode);
         assert(size as int == (hi as int) * 0x10000 + (((size / 0x100) % 256) as int) * 0x100 + ((size % 256) as int));
     }
+
+    // ---------------- C10: end to end, any sequence of headers -------------------------------------
+
+    pub open spec fn wrath_hdr_len(size: u32) -> nat { if size > 0x7FFF { 5 } else { 4 } }
+
+    /// bytes the server puts on the wire for a list of (size, opcode) headers, starting in stream state st
+    /// (each element per the contract of encrypt_server_header, state threaded through)
+    pub open spec fn wrath_wire(st: Rc4State, hdrs: Seq<(u32, u16)>) -> Seq<u8>
+        decreases hdrs.len()
+    {
+        if hdrs.len() == 0 { Seq::<u8>::empty() } else {
+            let n = wrath_hdr_len(hdrs[0].0);
+            xor_seq(wrath_server_header_plain(hdrs[0].0, hdrs[0].1), keystream(st, n)) + wrath_wire(advance(st, n), hdrs.drop_first())
+        }
+    }
+
+    pub proof fn lemma_plain_len(size: u32, opcode: u16)
+        ensures wrath_server_header_plain(size, opcode).len() == wrath_hdr_len(size)
+    { }
+
+    /// keystream prefix: the first m bytes of an n-byte keystream are the m-byte keystream
+    pub proof fn lemma_keystream_prefix(st: Rc4State, m: nat, n: nat)
+        requires m <= n
+        ensures keystream(st, n).subrange(0, m as int) == keystream(st, m), keystream(st, n).len() == n
+    {
+        lemma_keystream_add(st, m, (n - m) as nat);
+        lemma_keystream_len(st, m); lemma_keystream_len(st, n);
+        assert((keystream(st, m) + keystream(advance(st, m), (n - m) as nat)).subrange(0, m as int) =~= keystream(st, m));
+    }
+
+    /// Step of the sequence argument, read-based path: whatever the client's read-based call returns on a stream that
+    /// starts with the wire image of hdrs (client stream state == server stream state st), it returns exactly the
+    /// first header, consumes exactly its bytes and is left in the server's state - so the rest of the stream is
+    /// again the wire image of the remaining headers from the common state, and the argument repeats.
+    pub proof fn lemma_wrath_read_step(st: Rc4State, hdrs: Seq<(u32, u16)>, rest: Seq<u8>, header0: Seq<u8>,
+                                       st1: Rc4State, header1: Seq<u8>, r: Result<ServerHeader, crate::std_io::Error>)
+        requires
+            hdrs.len() > 0, hdrs[0].0 <= 0x7FFFFF,
+            wrath_read_post(st, wrath_wire(st, hdrs) + rest, header0, st1, header1, r),
+        ensures
+            r matches Ok(h) && h.size == hdrs[0].0 && h.opcode == hdrs[0].1,
+            st1 == advance(st, wrath_hdr_len(hdrs[0].0)),
+            (wrath_wire(st, hdrs) + rest).subrange(wrath_hdr_len(hdrs[0].0) as int, (wrath_wire(st, hdrs) + rest).len() as int)
+                == wrath_wire(st1, hdrs.drop_first()) + rest,
+    {
+        let size = hdrs[0].0; let opcode = hdrs[0].1;
+        let n = wrath_hdr_len(size);
+        let plain = wrath_server_header_plain(size, opcode);
+        let first = xor_seq(plain, keystream(st, n));
+        let tail = wrath_wire(advance(st, n), hdrs.drop_first());
+        let stream = wrath_wire(st, hdrs) + rest;
+        lemma_keystream_len(st, n);
+        lemma_rc4_roundtrip(st, plain);
+        assert(stream =~= first + (tail + rest));
+        assert(stream.subrange(n as int, stream.len() as int) =~= tail + rest);
+        assert(stream.subrange(0, n as int) =~= first);
+        lemma_keystream_prefix(st, 4, n);
+        // the first four plaintext bytes as the client computes them
+        let p4 = xor_seq(stream.subrange(0, 4), keystream(st, 4));
+        assert(p4 =~= plain.subrange(0, 4)) by {
+            assert forall|i: int| 0 <= i < 4 implies p4[i] == plain[i] by {
+                assert(stream[i] == first[i]);
+                assert(keystream(st, 4)[i] == keystream(st, n)[i]);
+                let x = plain[i]; let k = keystream(st, n)[i];
+                assert((x ^ k) ^ k == x) by(bit_vector);
+            }
+        }
+        if size <= 0x7FFF {
+            assert(plain.subrange(0, 4) =~= plain);
+            assert(be16(size as u16) + le16(opcode) == plain);
+            lemma_wrath_small_roundtrip(size, opcode, ServerHeader { size: size, opcode: opcode });
+            assert(p4 == plain);
+            assert(p4[0] & 0x80u8 == 0);
+            match r { Ok(h) => { lemma_wrath_small_roundtrip(size, opcode, h); } Err(_) => { } }
+        } else {
+            let hi = ((size / 0x10000) % 256) as u8;
+            assert((hi | 0x80u8) & 0x80u8 != 0) by(bit_vector);
+            assert(p4[0] == plain[0]);
+            match r { Ok(h) => {
+                assert(xor_seq(stream.subrange(0, 5), keystream(st, 5)) =~= plain);
+                lemma_wrath_large_roundtrip(size, opcode, h);
+            } Err(_) => { } }
+        }
+    }
+
+    /// Same step for the two-call path: attempt on the first four bytes, then (long header) one more byte.
+    pub proof fn lemma_wrath_attempt_step(st: Rc4State, size: u32, opcode: u16, header0: Seq<u8>, header1: Seq<u8>,
+                                          ra: crate::wrath_header::WrathServerAttempt, h2: ServerHeader)
+        requires
+            size <= 0x7FFFFF,
+            wrath_attempt_post(st, xor_seq(wrath_server_header_plain(size, opcode), keystream(st, wrath_hdr_len(size))).subrange(0, 4), header0, header1, ra),
+            size > 0x7FFF ==> wrath_large_ok(h2, header1 + xor_seq(
+                seq![xor_seq(wrath_server_header_plain(size, opcode), keystream(st, 5))[4]], keystream(advance(st, 4), 1))),
+        ensures
+            size <= 0x7FFF ==> (ra matches crate::wrath_header::WrathServerAttempt::Header(h) && h.size == size && h.opcode == opcode),
+            size > 0x7FFF ==> ra is AdditionalByteRequired && h2.size == size && h2.opcode == opcode,
+    {
+        let n = wrath_hdr_len(size);
+        let plain = wrath_server_header_plain(size, opcode);
+        let wire = xor_seq(plain, keystream(st, n));
+        lemma_keystream_len(st, n);
+        lemma_keystream_prefix(st, 4, n);
+        let p4 = xor_seq(wire.subrange(0, 4), keystream(st, 4));
+        assert(p4 =~= plain.subrange(0, 4)) by {
+            assert forall|i: int| 0 <= i < 4 implies p4[i] == plain[i] by {
+                assert(keystream(st, 4)[i] == keystream(st, n)[i]);
+                let x = plain[i]; let k = keystream(st, n)[i];
+                assert((x ^ k) ^ k == x) by(bit_vector);
+            }
+        }
+        if size <= 0x7FFF {
+            assert(plain.subrange(0, 4) =~= plain);
+            assert(be16(size as u16) + le16(opcode) == plain);
+            lemma_wrath_small_roundtrip(size, opcode, ServerHeader { size: size, opcode: opcode });
+            assert(p4 == plain);
+            assert(p4[0] & 0x80u8 == 0);
+            match ra {
+                crate::wrath_header::WrathServerAttempt::Header(h) => { lemma_wrath_small_roundtrip(size, opcode, h); }
+                _ => { }
+            }
+        } else {
+            let hi = ((size / 0x10000) % 256) as u8;
+            assert((hi | 0x80u8) & 0x80u8 != 0) by(bit_vector);
+            assert(p4[0] == plain[0]);
+            lemma_keystream_add(st, 4, 1);
+            lemma_keystream_len(st, 4); lemma_keystream_len(advance(st, 4), 1);
+            let k5 = keystream(st, 5);
+            let last = xor_seq(seq![wire[4]], keystream(advance(st, 4), 1));
+            assert(last =~= seq![plain[4]]) by {
+                assert(k5[4] == keystream(advance(st, 4), 1)[0]);
+                let x = plain[4]; let k = k5[4];
+                assert((x ^ k) ^ k == x) by(bit_vector);
+            }
+            assert(header1 + last =~= plain);
+            lemma_wrath_large_roundtrip(size, opcode, h2);
+        }
+    }
 }
